@@ -9,7 +9,7 @@ from harness import core, py2lean, instantiate
 from harness.core import Outcome, f2b, b2f
 
 ID = "C11"
-LEAN_TARGETS = ["BeyondVerif.Props.C11", "BeyondVerif.Props.C11Mask", "BeyondVerif.Witness.C11"]
+LEAN_TARGETS = ["BeyondVerif.Props.C11", "BeyondVerif.Props.C11Mask", "BeyondVerif.Props.C11MaskLife", "BeyondVerif.Witness.C11"]
 THEOREMS = [
     "BeyondVerif.C11.earth_constants",
     "BeyondVerif.C11.station_on_ellipsoid_partial",
@@ -352,21 +352,26 @@ def gen_target(rng, spos, up):
 
 def gen_mask(rng):
     """(azimuths, elevations, kind) following the documented convention unless kind says otherwise"""
-    n = rng.choice([1, 2, 2, 3, 4, 5, 6, 8, 10, 12])
+    n = rng.choice([1, 2, 2, 2, 3, 4, 5, 6, 8, 10, 12, 12, 24, 72])
     u = rng.random()
     kind = "conv"
     if n == 1:
         az = [TWO_PI]
     else:
-        first_zero = u < 0.15
+        first_zero = u < 0.2
+        gap = 1e-3 if n <= 12 else 1e-5
         inner = sorted(rng.uniform(1e-3, TWO_PI - 1e-3) for _ in range(n - 1))
-        ok = all(b - a > 1e-3 for a, b in zip(inner, inner[1:]))
+        ok = all(b - a > gap for a, b in zip(inner, inner[1:]))
         while not ok:
             inner = sorted(rng.uniform(1e-3, TWO_PI - 1e-3) for _ in range(n - 1))
-            ok = all(b - a > 1e-3 for a, b in zip(inner, inner[1:]))
+            ok = all(b - a > gap for a, b in zip(inner, inner[1:]))
         if first_zero:
             inner[0] = 0.0
             kind = "conv-first-zero"
+        elif u < 0.3 and n > 2:
+            # regular grid in degrees, as a surveyed mask is usually written
+            inner = [math.radians(360.0 * (j + 1) / n) for j in range(n - 1)]
+            kind = "conv-regular"
         az = inner + [TWO_PI]
     el = [rng.uniform(0, 1.4) for _ in az]
     return az, el, kind
@@ -387,22 +392,149 @@ def gen_mask_unconventional(rng):
 
 
 def gen_azimuths(rng, az, k):
+    """k azimuths (value, kind) for the table with azimuths `az`: anywhere in [-4 pi, 4 pi], on the nodes (also shifted by whole turns),
+    whole turns, inside the wrap-around segment [0, first node), inside the LAST segment (last interior node, 2 pi), tiny values"""
     out = []
+    lo_last = az[-2] if len(az) >= 2 else 0.0
     for _ in range(k):
         u = rng.random()
-        if u < 0.5:
+        if u < 0.4:
             out.append((rng.uniform(-2 * TWO_PI, 2 * TWO_PI), "random"))
-        elif u < 0.65:
+        elif u < 0.52:
             out.append((rng.choice(az), "exact-hit"))
-        elif u < 0.75:
+        elif u < 0.6:
             out.append((rng.choice(az) + rng.choice([-1, 1]) * TWO_PI, "hit-shifted"))
-        elif u < 0.85:
-            out.append((rng.choice([0.0, TWO_PI, -TWO_PI, 2 * TWO_PI, -2 * TWO_PI]), "multiple-of-2pi"))
-        elif u < 0.95:
+        elif u < 0.7:
+            out.append((rng.choice([0.0, TWO_PI, -TWO_PI, 2 * TWO_PI, -2 * TWO_PI, -0.0]), "multiple-of-2pi"))
+        elif u < 0.8:
             out.append((rng.uniform(0, az[0]) if az[0] > 0 else rng.uniform(0, 1e-3), "wrap-segment"))
+        elif u < 0.93:
+            x = rng.uniform(lo_last, az[-1]) if az[-1] > lo_last else rng.uniform(0, TWO_PI)
+            out.append((x + rng.choice([0, 0, 0, -1, 1, 2]) * TWO_PI, "last-segment"))
         else:
-            out.append((rng.choice([-1e-20, 1e-300, -1e-9, TWO_PI - 1e-12, 1e-12]), "tiny"))
+            out.append((rng.choice([-1e-20, 1e-300, -1e-9, TWO_PI - 1e-12, 1e-12, float(rng.randrange(-7, 14))]), "tiny-or-whole"))
     return out
+
+
+def segment_azimuths(az):
+    """one azimuth in the middle of every segment of the table (wrap-around segment first, last segment last), and every node"""
+    nodes = ([0.0] if az[0] > 0 else []) + list(az)
+    return [((a + b) / 2, "segment-middle") for a, b in zip(nodes, nodes[1:]) if b > a] + [(a, "node") for a in az]
+
+
+def azimuth_object(rng, x):
+    """the azimuth `x` as one of the kinds of number a caller passes to get_mask; returns (object, kind)"""
+    import numpy as np
+    u = rng.random()
+    if x == int(x) and abs(x) < 2 ** 31 and u < 0.6:
+        return (int(x), "int") if u < 0.3 else (np.int64(int(x)), "np-int64")
+    if u < 0.75:
+        return x, "float"
+    return np.float64(x), "np-float64"
+
+
+def gen_mask_arg(rng):
+    """(okind, entry) — how a mask is handed over at the creation of a station"""
+    u = rng.random()
+    if u < 0.7:
+        okind = rng.choice([k for k, c in MASK_OBJ_KINDS.items() if c == "seq"])
+    elif u < 0.8:
+        okind = rng.choice([k for k, c in MASK_OBJ_KINDS.items() if c == "arr"])
+    else:
+        okind = rng.choice([k for k, c in MASK_OBJ_KINDS.items() if c in ("absent", "eseq")])
+    return okind, rng.choice(MASK_ENTRIES)
+
+
+ASSIGN_KINDS = ["c-array", "transposed-view", "vstack", "default-dtype"]
+
+
+def assign_object(akind, az, el):
+    """the array of kind `akind` a caller assigns to `station.mask`"""
+    import numpy as np
+    if akind == "c-array":
+        return np.array([az, el], dtype=float)
+    if akind == "transposed-view":        # a non-contiguous view: columns of an Nx2 array of (azimuth, elevation) rows
+        return np.array(list(zip(az, el)), dtype=float).reshape(len(az), 2).T
+    if akind == "vstack":
+        return np.vstack([np.array(az, dtype=float), np.array(el, dtype=float)])
+    if akind == "default-dtype":
+        return np.array([list(az), list(el)]) if az else np.zeros((2, 0))
+    raise ValueError(akind)
+
+
+def gen_mask_history(rng, az, el, n_steps, strict, n_reads=3):
+    """a history of operations on a station that holds the table (az, el) — nothing when az is empty —: list of
+    ("Q", x, kind) get_mask | ("A", az, el, akind) station.mask = array | ("N",) station.mask = None | ("P", i, a, e) station.mask[:, i] = (a, e)
+    | ("L",) the caller writes into the list object it gave at creation.  It starts with reads (every segment of the table is visited, the last
+    one included), then `n_steps` modifications each followed by reads.
+    strict: every table follows the convention and every operation succeeds (oracle); otherwise anything the model covers: tables outside
+    the convention, empty tables, reads without a mask, writes out of range."""
+    ops = []
+    cur = [list(az), list(el)] if len(az) else None
+
+    def reads(k, segments):
+        if cur and cur[0]:
+            qs = gen_azimuths(rng, cur[0], k)
+            sg = segment_azimuths(cur[0])
+            m = len(sg) - len(cur[0])
+            qs += ([sg[m - 1]] if m > 0 else []) + rng.sample(sg, min(segments, len(sg)))     # middle of the last segment, then others
+            rng.shuffle(qs)
+        else:
+            qs = [] if strict else [(rng.uniform(-7, 7), "random")]
+        ops.extend(("Q", x, k_) for x, k_ in qs)
+
+    reads(n_reads, 3)
+    if rng.random() < 0.5:
+        ops.append(("L",))
+        reads(1, 0)
+    for _ in range(n_steps):
+        u = rng.random()
+        if u < 0.45 or (strict and not cur):
+            a2, e2, _k = gen_mask(rng) if strict or rng.random() < 0.8 else gen_mask_unconventional(rng)
+            if not strict and rng.random() < 0.05:
+                a2, e2 = [], []
+            cur = [list(a2), list(e2)]
+            ops.append(("A", list(a2), list(e2), rng.choice(ASSIGN_KINDS)))
+        elif u < 0.55:
+            cur = None
+            ops.append(("N",))
+            if strict:
+                continue
+        elif cur and cur[0] and (strict or rng.random() < 0.9):
+            i = rng.randrange(len(cur[0]))
+            lo = cur[0][i - 1] if i > 0 else 0.0
+            hi = cur[0][i + 1] if i + 1 < len(cur[0]) else None
+            if hi is None or not lo < hi or rng.random() < 0.4:
+                a = cur[0][i]                                  # elevation only (the closing node keeps its azimuth)
+            elif strict or rng.random() < 0.9:
+                a = rng.uniform(lo, hi)                        # the node moves between its neighbours
+                a = a if lo < a < hi else cur[0][i]
+            else:
+                a = rng.uniform(-1, 7)                         # anywhere: the table may leave the convention (modelled, no theorem)
+            e = rng.uniform(0, 1.4)
+            cur[0][i], cur[1][i] = a, e
+            ops.append(("P", i, a, e))
+        else:
+            n = len(cur[0]) if cur else 0
+            ops.append(("P", n + rng.randrange(3), rng.uniform(0, 6), rng.uniform(0, 1)))
+        reads(2, 1)
+    return ops
+
+
+def apply_to_table(cur, op):
+    """the table [az, el] (None: no mask) a station is expected to hold after `op`; writes that raise leave it unchanged"""
+    if op[0] == "A":
+        return [list(op[1]), list(op[2])]
+    if op[0] == "N":
+        return None
+    if op[0] == "P" and cur is not None and op[1] < len(cur[0]):
+        cur = [list(cur[0]), list(cur[1])]
+        cur[0][op[1]], cur[1][op[1]] = op[2], op[3]
+    return cur
+
+
+def conventional(az):
+    return len(az) > 0 and az[-1] == TWO_PI and all(b > a for a, b in zip(az, az[1:]))
 
 
 # ---------------------------------------------------------------- independent geodesy (extended precision)
@@ -449,14 +581,14 @@ def pwl_reference(az, el, x):
 
 # ---------------------------------------------------------------- oracle on the real API
 
-def check_target(out, st, inp_s, a, f, lat, lon, alt, r, v, date, npath, skind="", tkind=""):
-    """one station, one Earth-fixed target: station-frame spherical/cartesian coordinates and the four measures vs the ENU reference"""
+def check_target(out, st, inp_s, a, f, lat, lon, alt, r, v, date, npath, skind="", tkind="", pframe="ITRF"):
+    """one station, one target given in the Earth-fixed frame the station was created in (`parent_frame`, default WGS84 = ITRF): station-frame spherical/cartesian coordinates and the four measures vs the ENU reference"""
     import numpy as np
     from beyond.orbits import StateVector
     from beyond.utils.measures import Range, Azimut, Elevation, Doppler
     lat_d, lon_d = inp_s["latlonalt_deg_m"][:2]
     ref = enu_reference(a, f, lat, lon, alt, r, v)
-    sv = StateVector(r + v, date, "cartesian", "ITRF")
+    sv = StateVector(r + v, date, "cartesian", pframe)
     t = sv.copy(frame=st, form="spherical")
     inp = dict(inp_s, target_itrf=r + v, date=str(date))
     rg = float(ref["range"])
@@ -498,7 +630,7 @@ def check_target(out, st, inp_s, a, f, lat, lon, alt, r, v, date, npath, skind="
                      dict(inp, path_len=npath), observed=val, expected=exp[nm])
 
 
-def check_station_state(out, st, inp_s, a, f, lat, lon, alt, date, ref0, skind="", ckind="", fd_frame=None):
+def check_station_state(out, st, inp_s, a, f, lat, lon, alt, date, ref0, skind="", ckind="", fd_frame=None, pframe="ITRF"):
     """one station: on the ellipsoid at its height along the normal, at the reference position, at rest in the Earth-fixed frames,
     omega x r in the frames of the rotation axis, velocity = d(position)/dt in inertial frame `fd_frame`"""
     import numpy as np
@@ -507,8 +639,8 @@ def check_station_state(out, st, inp_s, a, f, lat, lon, alt, date, ref0, skind="
     lat_d, lon_d = inp_s["latlonalt_deg_m"][:2]
     # --- the station sits on the ellipsoid at the given height, along the ellipsoid normal
     origin = StateVector([0, 0, 0, 0, 0, 0], date, "cartesian", st)
-    s_itrf = np.array(origin.copy(frame="ITRF"))
-    out.count(key=("ellipsoid", lat_d, lon_d, alt), kind="station-ellipsoid", station=skind, coords=ckind)
+    s_itrf = np.array(origin.copy(frame=pframe))      # in the frame the coordinates were given in
+    out.count(key=("ellipsoid", lat_d, lon_d, alt), kind="station-ellipsoid", station=skind, coords=ckind, parent=pframe)
     L = np.longdouble
     foot = np.array(s_itrf[:3], dtype=L) - L(alt) * ref0["U"]
     b = L(a) * (1 - L(f))
@@ -576,24 +708,175 @@ def check_coords_kind(out, kind, lat_d, lon_d, alt, a, f):
                  expected={"position": [float(c) for c in ref["s"]]})
 
 
-def check_mask(out, st, az, el, x, mkind="", akind="random"):
-    """get_mask(x) on the table (az, el) vs the independent piecewise-linear interpolation"""
+def real_store(st):
+    """what `station.mask` holds, in the notation of the driver: none | junk | t<n>,a1,e1,…"""
     import numpy as np
-    st.mask = np.array([az, el], dtype=float)
-    exp, xr = pwl_reference(az, el, x)
-    out.count(key=("mask", tuple(az), x), kind="mask-" + akind, table=mkind, npoints=len(az), nontrivial=akind == "random")
+    m = st.mask
+    if m is None:
+        return "none"
+    if not isinstance(m, np.ndarray) or m.ndim != 2 or m.shape[0] != 2 or m.dtype != np.float64:
+        return "junk"
+    return f"t{m.shape[1]}" + "".join("," + f2b(float(a)) + "," + f2b(float(e)) for a, e in zip(m[0], m[1]))
+
+
+def table_str(az, el):
+    return f"t{len(az)}" + "".join("," + f2b(float(a)) + "," + f2b(float(e)) for a, e in zip(az, el))
+
+
+def real_op(rng, st, op):
+    """apply one operation of a mask history to the real station; returns the reply: "ok" | float | "index-error" | "no-mask" | "type-error" | "<Exception>" """
+    import numpy as np
     try:
-        got = float(st.get_mask(x))
-    except Exception as e:  # noqa: BLE001
-        got = repr(e)
+        if op[0] == "A":
+            st.mask = assign_object(op[3], op[1], op[2])
+            return "ok"
+        if op[0] == "N":
+            st.mask = None
+            return "ok"
+        if op[0] == "P":
+            st.mask[:, op[1]] = (op[2], op[3])
+            return "ok"
+        if op[0] == "L":
+            given = getattr(st, "c11_given", None)
+            if isinstance(given, list) and given and all(isinstance(r, list) and r for r in given):
+                given[0][-1], given[1][0] = 1.0, 99.0
+            return None
+        if op[0] == "Q":
+            xo, _k = azimuth_object(rng, op[1])
+            with np.errstate(all="ignore"):
+                return float(st.get_mask(xo))
+    except IndexError:
+        return "index-error"
+    except TypeError:
+        return "type-error"
+    except ValueError as e:
+        return "no-mask" if "No mask" in str(e) else "ValueError"
+    raise ValueError(op)
+
+
+def mask_tolerance(az, el, akind):
     slope = max([abs((el[j + 1] - el[j]) / (az[j + 1] - az[j])) for j in range(len(az) - 1)] + [abs(el[0] - el[-1]) / az[0] if az[0] > 0 else 0.0])
+    return 1e-12 + 1e-13 * slope + 1e-9 * slope * (akind in ("tiny", "tiny-or-whole"))
+
+
+def check_mask_value(out, got, az, el, x, mkind="", akind="random", how="assigned", extra=None):
+    """`got` = get_mask(x) of a station that is supposed to hold the conventional table (az, el), vs the independent piecewise-linear
+    interpolation; `how` says how the table got there (it goes into the family of a failure and into its replay input)"""
+    exp, xr = pwl_reference(az, el, x)
+    out.count(key=("mask", how, tuple(az), x), kind="mask-" + akind, table=mkind, npoints=len(az), how=how, nontrivial=akind not in ("multiple-of-2pi",))
     # a table that gives a value at azimuth 0 itself is discontinuous there: skip the float-ambiguous neighbourhood
     if az[0] <= 0 and (xr < 1e-9 or TWO_PI - xr < 1e-9) and akind != "multiple-of-2pi":
+        return True
+    if not (isinstance(got, float) and abs(got - exp) <= mask_tolerance(az, el, akind)):
+        last_lo = az[-2] if len(az) >= 2 else 0.0
+        seg = "wrap" if (az[0] > 0 and xr < az[0]) else ("hit" if xr in az else ("last" if xr > last_lo else "interior"))
+        fam = "mask-interp-" + seg + ("" if how == "assigned" else "-" + how)
+        inp = {"azimuths": list(az), "elevations": list(el), "azim": x, "akind": akind, "how": how}
+        inp.update(extra or {})
+        out.fail(fam, "get_mask differs from the piecewise-linear interpolation of the table (2 pi value also serving at 0)"
+                 + ("" if how == "assigned" else f" — table {how}"), inp, observed=got, expected=exp)
+        return False
+    return True
+
+
+def check_mask(out, st, az, el, x, mkind="", akind="random"):
+    """get_mask(x) on the table (az, el) assigned to `station.mask` vs the independent piecewise-linear interpolation"""
+    import numpy as np
+    st.mask = np.array([az, el], dtype=float)
+    try:
+        with np.errstate(all="ignore"):
+            got = float(st.get_mask(x))
+    except Exception as e:  # noqa: BLE001
+        got = repr(e)
+    check_mask_value(out, got, az, el, x, mkind, akind)
+
+
+def check_mask_given(out, rng, okind, entry, az, el, ops, mkind="", coords=(10.0, 20.0, 30.0), parent="default"):
+    """a station created WITH the conventional table (az, el) handed over as an object of kind `okind` through `entry`, then driven
+    through the history `ops` (gen_mask_history, strict): the station holds the given table; every read is the interpolation of the table the
+    station holds at that moment — in every segment, on the nodes, outside [0, 2 pi) —: the given one, unaffected by later writes of the
+    caller into its own list, then the re-assigned / modified-in-place one."""
+    import numpy as np
+    extra = {"okind": okind, "entry": entry, "parent": parent, "given": [list(az), list(el)]}
+    cls = MASK_OBJ_KINDS[okind]
+    out.count(key=("mask-given", okind, entry, tuple(az)), kind="mask-given", okind=okind, entry=entry, table=mkind, npoints=len(az))
+    try:
+        st = new_station(*coords, mask_given=(okind, az, el), entry=entry, parent=parent)
+    except Exception as e:  # noqa: BLE001
+        if cls == "arr":
+            out.tally("mask-given-ndarray-rejected=" + type(e).__name__)      # known limitation (`if mask` on an array); nothing is promised
+            return
+        out.fail(f"mask-given-rejected-{okind}", f"a mask given at creation as {okind} through {entry} is rejected",
+                 dict(extra, ops=[]), observed=repr(e), expected="a station holding the table")
         return
-    if not (isinstance(got, float) and abs(got - exp) <= 1e-12 + 1e-13 * slope + 1e-9 * slope * (akind == "tiny")):
-        seg = "wrap" if (az[0] > 0 and xr < az[0]) else ("hit" if xr in az else "interior")
-        out.fail("mask-interp-" + seg, "get_mask differs from the piecewise-linear interpolation of the table (2 pi value also serving at 0)",
-                 {"azimuths": list(az), "elevations": list(el), "azim": x, "akind": akind}, observed=got, expected=exp)
+    try:
+        _obj, (taz, tel) = mask_object(okind, az, el)         # the exact table the object denotes (list-int-elev rounds the elevations)
+        cur = [taz, tel] if taz else None
+        how = "given-at-" + entry.split("-")[0]
+        if real_store(st) != (table_str(taz, tel) if cur else "none"):
+            out.fail(f"mask-stored-{entry.split('-')[0]}", "the table held by the station differs from the table given at its creation",
+                     dict(extra, ops=[]), observed=None if st.mask is None else np.asarray(st.mask).tolist(), expected=cur)
+        for k, op in enumerate(ops):
+            rep = real_op(rng, st, op)
+            if op[0] == "Q":
+                if cur is not None and conventional(cur[0]):
+                    if not check_mask_value(out, rep, cur[0], cur[1], op[1], mkind, op[2], how, dict(extra, ops=[list(o) for o in ops[:k + 1]])):
+                        break
+            else:
+                cur = apply_to_table(cur, op)
+                if op[0] != "L":
+                    how = {"A": "after-reassignment", "N": "after-clear", "P": "after-write-in-place"}[op[0]]
+                    mkind = "history"
+                    if rep != "ok":
+                        out.fail("mask-" + how + "-raises", "an operation on station.mask that is valid for the table it holds raises",
+                                 dict(extra, ops=[list(o) for o in ops[:k + 1]]), observed=rep, expected="ok")
+                        break
+    finally:
+        drop_station(st)
+
+
+PARENT_NAME = {"default": "ITRF", "WGS84": "ITRF", "ITRF": "ITRF", "PEF": "PEF", "TIRF": "TIRF"}
+
+
+def station_options(rng, k):
+    """(parent, mask_given, entry) for the k-th station of a sweep: the first ones are plain create_station(name, coords) calls"""
+    if k < 3 or rng.random() < 0.4:
+        return "default", None, "create_station"
+    parent = rng.choice(PARENTS)
+    mgiven, entry = None, "create_station"
+    if rng.random() < 0.6:
+        okind = rng.choice([k_ for k_, c in MASK_OBJ_KINDS.items() if c != "arr"])
+        az, el, _mk = gen_mask(rng)
+        mgiven, entry = (okind, az, el), rng.choice(MASK_ENTRIES)
+    return parent, mgiven, entry
+
+
+def check_equatorial(out, rng, lat_d, lon_d, alt, a, f, date, parent):
+    """create_station(..., equatorial=True): the frame is centred on the same point of the ellipsoid (at rest in the Earth-fixed frame) and has the
+    axes of EME2000 — coordinates of a target there are the EME2000 difference target - station"""
+    import numpy as np
+    from beyond.orbits import StateVector
+    st = new_station(lat_d, lon_d, alt, parent=parent, equatorial=True)
+    try:
+        pframe = PARENT_NAME[parent]
+        lat_d, lon_d, alt = st.c11_deg
+        inp = {"latlonalt_deg_m": [lat_d, lon_d, alt], "equatorial": True, "parent": parent, "date": str(date)}
+        ref0 = enu_reference(a, f, math.radians(lat_d), math.radians(lon_d), alt, [0, 0, 0], [0, 0, 0])
+        origin = StateVector([0, 0, 0, 0, 0, 0], date, "cartesian", st)
+        sp = np.array(origin.copy(frame=pframe))
+        out.count(key=("equatorial", lat_d, lon_d, alt), kind="station-equatorial", parent=parent)
+        if not (float(np.max(np.abs(np.array(sp[:3], dtype=np.longdouble) - ref0["s"]))) < 1e-6 and np.all(np.abs(sp[3:]) < 1e-9)):
+            out.fail("station-equatorial-position", "an equatorial station is not at rest at the geodetic position of its coordinates", inp,
+                     observed=list(map(float, sp)), expected=list(map(float, ref0["s"])) + [0, 0, 0])
+        x = [rng.uniform(-1, 1) * 2e7 for _ in range(3)] + [rng.uniform(-1, 1) * 5e3 for _ in range(3)]
+        sv = StateVector(x, date, "cartesian", "EME2000")
+        got = np.array(sv.copy(frame=st, form="cartesian"))
+        exp = np.array(x) - np.array(origin.copy(frame="EME2000"))
+        if not (np.allclose(got[:3], exp[:3], rtol=0, atol=1e-6) and np.allclose(got[3:], exp[3:], rtol=0, atol=1e-9)):
+            out.fail("station-equatorial-axes", "coordinates in an equatorial station frame are not the EME2000 difference target - station",
+                     dict(inp, state_eme2000=x), observed=list(map(float, got)), expected=list(map(float, exp)))
+    finally:
+        drop_station(st)
 
 
 def check_wgs84(out, st, inp_s, a, f, lat, lon, alt, date):
@@ -629,19 +912,24 @@ def oracle(ctx, widened):
     for k in range(n_st):
         lat_d, lon_d, alt, skind = gen_station(rng, k)
         ckind = "float-tuple" if rng.random() < 0.4 else rng.choice(WIDE_KINDS)
-        st = new_station(lat_d, lon_d, alt, kind=ckind)
+        # every option of create_station: the Earth-fixed frame the coordinates are given in, a mask handed over at creation
+        parent, mgiven, entry = station_options(rng, k)
+        pframe = PARENT_NAME[parent]
+        st = new_station(lat_d, lon_d, alt, kind=ckind, parent=parent, mask_given=mgiven, entry=entry)
         lat_d, lon_d, alt = st.c11_deg
         lat, lon = math.radians(lat_d), math.radians(lon_d)
         inp_s = {"latlonalt_deg_m": [lat_d, lon_d, alt], "coords_kind": ckind}
+        if parent != "default" or mgiven is not None:
+            inp_s.update(parent=parent, mask_given=None if mgiven is None else [mgiven[0], list(mgiven[1]), list(mgiven[2])], entry=entry)
         ref0 = enu_reference(a, f, lat, lon, alt, [0, 0, 0], [0, 0, 0])
         date = d0 + timedelta(seconds=rng.uniform(0, 4e7))
         check_station_state(out, st, inp_s, a, f, lat, lon, alt, date, ref0, skind, ckind,
-                            rng.choice(["EME2000", "MOD", "GCRF", "TEME", "G50"]) if k % 3 == 0 else None)
+                            rng.choice(["EME2000", "MOD", "GCRF", "TEME", "G50"]) if k % 3 == 0 else None, pframe=pframe)
         # --- targets: topocentric spherical coordinates vs ENU
         for _ in range(n_tg):
             r, v, tkind = gen_target(rng, [float(c) for c in ref0["s"]], [float(c) for c in ref0["U"]])
-            check_target(out, st, inp_s, a, f, lat, lon, alt, r, v, date, rng.choice([2, 3, 3, 4]), skind, tkind)
-        # --- target given in an inertial frame: the direct change to the station frame agrees with going through ITRF first
+            check_target(out, st, inp_s, a, f, lat, lon, alt, r, v, date, rng.choice([2, 3, 3, 4]), skind, tkind, pframe=pframe)
+        # --- target given in an inertial frame: the direct change to the station frame agrees with going through the Earth-fixed frame first
         if k % 2 == 0:
             fr = rng.choice(["EME2000", "TEME", "GCRF", "TOD"])
             rad = 6378e3 + 10 ** rng.uniform(5.3, 7.6)
@@ -649,7 +937,7 @@ def oracle(ctx, widened):
             dirv /= np.linalg.norm(dirv)
             x = list(rad * dirv) + [rng.uniform(-7e3, 7e3) for _ in range(3)]
             sv = StateVector(x, date, "cartesian", fr)
-            itrf = np.array(sv.copy(frame="ITRF"))
+            itrf = np.array(sv.copy(frame=pframe))
             ref = enu_reference(a, f, lat, lon, alt, list(itrf[:3]), list(itrf[3:]))
             t = sv.copy(frame=st, form="spherical")
             out.count(key=("via", fr, lat_d, tuple(x)), kind="topo-from-inertial", frame=fr)
@@ -663,22 +951,46 @@ def oracle(ctx, widened):
         if wgs_done < 3:
             wgs_done += 1
             check_wgs84(out, st, inp_s, a, f, lat, lon, alt, date)
+        # the mask handed over with the coordinates is the station's mask
+        if mgiven is not None and MASK_OBJ_KINDS[mgiven[0]] == "seq":
+            _o, (taz, tel) = mask_object(*mgiven)
+            for x, akind in gen_azimuths(rng, taz, 3) + segment_azimuths(taz)[:len(taz)][-1:]:
+                with np.errstate(all="ignore"):
+                    got = float(st.get_mask(x))
+                check_mask_value(out, got, taz, tel, x, "conv", akind, "given-at-" + entry.split("-")[0],
+                                 {"okind": mgiven[0], "entry": entry, "parent": parent, "given": [list(mgiven[1]), list(mgiven[2])], "ops": [["Q", x, akind]]})
         drop_station(st)
     # --- the station is where its coordinates say, whatever numeric kind they are given in
     for kind in WIDE_KINDS + NARROW_INT_KINDS + OTHER_KINDS:
         for _ in range(12 if big else 3):
             lat_d, lon_d, alt, _sk = gen_station(rng)
             check_coords_kind(out, kind, lat_d, lon_d, alt, a, f)
-    # --- horizon mask
+    # --- equatorial=True: same place, axes of EME2000
+    for _ in range(40 if big else 6):
+        lat_d, lon_d, alt, _sk = gen_station(rng)
+        check_equatorial(out, rng, lat_d, lon_d, alt, a, f, d0 + timedelta(seconds=rng.uniform(0, 4e7)), rng.choice(PARENTS))
+    # --- horizon mask assigned to station.mask
     st = new_station(10.0, 20.0, 30.0)
     n_tab = 3000 if big else 150
     for i in range(n_tab):
         az, el, mkind = gen_mask(rng)
-        for x, akind in gen_azimuths(rng, az, 12):
+        sg = segment_azimuths(az)
+        for x, akind in gen_azimuths(rng, az, 10) + sg[:len(sg) - len(az)][-1:] + [rng.choice(sg)]:
             check_mask(out, st, az, el, x, mkind, akind)
     drop_station(st)
+    # --- horizon mask handed over at the creation of the station (every kind of object x every entry point), and its life afterwards
+    combos = [(ok, en) for en in MASK_ENTRIES for ok in MASK_OBJ_KINDS]
+    rng.shuffle(combos)
+    for i in range(1500 if big else 144):
+        okind, entry = combos[i % len(combos)]
+        az, el, mkind = gen_mask(rng)
+        given = MASK_OBJ_KINDS[okind] in ("seq", "arr")
+        ops = gen_mask_history(rng, az if given else [], el if given else [], rng.choice([0, 1, 2, 3]) if given else 2, strict=True, n_reads=6)
+        check_mask_given(out, rng, okind, entry, az, el, ops, mkind, parent=rng.choice(PARENTS))
     out.sample({"checks": "ellipsoid membership + normal, position formula, rest in ITRF/PEF/TIRF, omega x r in TOD/CIRF, finite-difference velocity in inertial frames, "
-                          "range/elevation/azimuth/range-rate/axes vs extended-precision ENU, the four measures, inertial targets, WGS-84 constants, mask vs np.interp"})
+                          "range/elevation/azimuth/range-rate/axes vs extended-precision ENU, the four measures, inertial targets, WGS-84 constants, mask vs np.interp "
+                          "(table assigned / given at creation as list, tuple, rows of arrays ... through create_station or TopocentricFrame / re-assigned / written in place), "
+                          "parent_frame WGS84 / ITRF / PEF / TIRF, equatorial=True"})
     return out
 
 
@@ -1079,17 +1391,22 @@ def correspondence(ctx):
     for k in range(n_st):
         lat_d, lon_d, alt, skind = gen_station(rng, k)
         ckind = "float-tuple" if rng.random() < 0.4 else rng.choice(WIDE_KINDS)
-        st = new_station(lat_d, lon_d, alt, kind=ckind)
+        # every option of create_station: the Earth-fixed frame the coordinates are given in (the model works in that frame), a mask handed over at creation
+        parent, mgiven, entry = station_options(rng, k)
+        pframe = PARENT_NAME[parent]
+        st = new_station(lat_d, lon_d, alt, kind=ckind, parent=parent, mask_given=mgiven, entry=entry)
         lat_d, lon_d, alt_d = st.c11_deg             # exact values of what was passed to create_station
         lat, lon, alt = (float(c) for c in st.latlonalt)   # what the code made of them (radians, metres)
         inp_s = {"latlonalt_deg_m": [lat_d, lon_d, alt_d], "coords_kind": ckind}
+        if parent != "default" or mgiven is not None:
+            inp_s.update(parent=parent, mask_given=None if mgiven is None else [mgiven[0], list(mgiven[1]), list(mgiven[2])], entry=entry)
         degs = [f2b(lat_d), f2b(lon_d), f2b(alt_d)]
         # create_station itself: position of the centre link and orientation matrix from the coordinates as given
         req = " ".join(["c11create"] + degs)
         created = [float(c) for c in st.center.offset[:3]] + [float(c) for c in np.array(st.orientation._m).flatten()] + [lat, lon, alt]
         add(req, lambda rep, real=created, i=inp_s: _cmp(out, "create", "create_station (centre offset, orientation matrix, stored radians)", i, real, rep,
                                                           [2e-8] * 3 + [1e-14] * 9 + [1e-15, 2e-15, 0.0]))
-        out.count(key=req, kind="create", station=skind, coords=ckind)
+        out.count(key=req, kind="create", station=skind, coords=ckind, parent=parent, mask_given="no" if mgiven is None else mgiven[0], entry=entry if mgiven else "-")
         date = date0 + timedelta(seconds=rng.uniform(0, 3e7))
         g = TopocentricFrame._geodetic_to_cartesian(lat, lon, alt)
         spos = [float(c) for c in g[:3]]
@@ -1103,14 +1420,14 @@ def correspondence(ctx):
         up = [float(c) for c in m[:, 2]]
         # the station origin seen from the parent frame, and a generic station-frame state
         for loc in ([0.0] * 6, [rng.uniform(-1e5, 1e5) for _ in range(3)] + [rng.uniform(-100, 100) for _ in range(3)]):
-            real = np.array(StateVector(loc, date, "cartesian", st).copy(frame="ITRF"))
+            real = np.array(StateVector(loc, date, "cartesian", st).copy(frame=pframe))
             req = " ".join(["c11back"] + degs + [f2b(c) for c in loc])
-            add(req, lambda rep, real=real, i=dict(inp_s, state=loc): _cmp(out, "back", "station frame -> ITRF", i, list(real), rep, [2e-8] * 3 + [1e-12] * 3))
+            add(req, lambda rep, real=real, i=dict(inp_s, state=loc): _cmp(out, "back", "station frame -> parent frame", i, list(real), rep, [2e-8] * 3 + [1e-12] * 3))
             out.count(key=req, kind="back", nontrivial=any(loc))
         for _ in range(n_tg):
             r, v, tkind = gen_target(rng, spos, up)
             x = r + v
-            sv = StateVector(x, date, "cartesian", "ITRF")
+            sv = StateVector(x, date, "cartesian", pframe)
             cart = np.array(sv.copy(frame=st, form="cartesian"))
             sph = np.array(sv.copy(frame=st, form="spherical"))
             req = " ".join(["c11topo"] + degs + [f2b(c) for c in x])
@@ -1186,12 +1503,77 @@ def correspondence(ctx):
             add(req, lambda rep, got=got, inp={"azimuths": az, "elevations": el, "azim": x}: mask_check(rep, got, inp))
             out.count(key=req, kind="mask-" + akind, table=mkind, npoints=len(az), nontrivial=akind in ("random", "wrap-segment", "hit-shifted"))
     drop_station(st)
+    # the life of station.mask: handed over at creation (every kind of object, every entry point), assigned, cleared, written in place, read —
+    # the real object against the state machine `stationMaskRun` (constructor path translated from the source)
+    agree = [0, 0]
+
+    def run_check(rep, real, inp):
+        """real = "raises" | (store after construction, replies, final store)"""
+        if real == "raises" or rep == "raises" or "|" not in rep:
+            if rep != real:
+                out.fail("mask-life-constructor", "the constructor raises where the model stores the mask (or conversely)", inp, observed=real if real == "raises" else "stored " + real[0], expected=rep)
+            return
+        s0, reps, s1 = (t.strip() for t in rep.split("|"))
+        if real[0] != s0:
+            out.fail("mask-life-stored", "what the station holds after its creation differs from the model of `mask=` handling (createStationMask)", inp, observed=real[0], expected=s0)
+            return
+        reps = reps.split()
+        if len(reps) != len(real[1]):
+            out.fail("mask-life", "model returned a different number of replies", inp, observed=real[1], expected=reps)
+            return
+        for j, (mv, rv) in enumerate(zip(reps, real[1])):
+            agree[0] += 1
+            if isinstance(rv, float) and mv[0].isdigit():
+                mvf = b2f(mv)
+                same = (mvf == rv) or (math.isnan(mvf) and math.isnan(rv)) or (not (math.isinf(mvf) or math.isinf(rv)) and core.close(rv, mvf, rtol=1e-12, atol=1e-13))
+            else:
+                same = mv == rv
+            if not same:
+                out.fail("mask-life-reply", f"operation {j} of the history: the station answers differently from the model (maskRun)", inp,
+                         observed=rv, expected=b2f(mv) if mv[0].isdigit() else mv)
+                return
+            agree[1] += 1
+        if real[2] != s1:
+            out.fail("mask-life-final-store", "station.mask after the history differs from the model", inp, observed=real[2], expected=s1)
+
+    for i in range(ctx.n(260, 6000)):
+        okind, entry = gen_mask_arg(rng)
+        u = rng.random()
+        az, el, mkind = gen_mask(rng) if u < 0.8 else gen_mask_unconventional(rng)
+        if u > 0.97:
+            az, el, mkind = [], [], "empty"
+        cls = MASK_OBJ_KINDS[okind]
+        _o, (taz, tel) = mask_object(okind, az, el)
+        ops = gen_mask_history(rng, taz if cls == "seq" else [], tel if cls == "seq" else [], rng.choice([0, 1, 2, 3, 5]), strict=False)
+        parent = rng.choice(PARENTS)
+        try:
+            stn = new_station(rng.uniform(-80, 80), rng.uniform(-180, 180), rng.uniform(0, 3000), mask_given=(okind, az, el), entry=entry, parent=parent)
+        except ValueError:
+            real = "raises"
+        else:
+            s0 = real_store(stn)
+            reps = [real_op(rng, stn, op) for op in ops]
+            real = (s0, [r for r in reps if r is not None], real_store(stn))
+            drop_station(stn)
+        tb = lambda a_, e_: [str(len(a_))] + [f2b(c) for pr in zip(a_, e_) for c in pr]
+        toks = ["c11maskrun"] + {"absent": ["absent"], "eseq": ["eseq"], "seq": ["seq"] + tb(taz, tel), "arr": ["arr"] + tb(taz, tel)}[cls]
+        for op in ops:
+            toks += {"Q": lambda: ["Q", f2b(float(op[1]))], "A": lambda: ["A"] + tb(op[1], op[2]), "N": lambda: ["N"],
+                     "P": lambda: ["P", str(op[1]), f2b(op[2]), f2b(op[3])], "L": lambda: []}[op[0]]()
+        req = " ".join(toks)
+        inp = {"okind": okind, "entry": entry, "parent": parent, "given": [list(az), list(el)], "ops": [list(o) for o in ops]}
+        add(req, lambda rep, real=real, inp=inp: run_check(rep, real, inp))
+        out.count(key=req, kind="mask-life", okind=okind, entry=entry, table=mkind, n_ops=len(ops), npoints=len(az),
+                  nontrivial=cls == "seq" or any(o[0] == "A" for o in ops))
+        for o in ops:
+            out.tally("mask-life-op=" + o[0] + (":" + o[2] if o[0] == "Q" else ""))
     replies = core.Driver(ID).run(reqs)
     for req, fn, rep in zip(reqs, checks, replies):
         fn(rep)
-        if req.split()[0] in ("c11topo", "c11mask", "c11meas"):
+        if req.split()[0] in ("c11topo", "c11mask", "c11meas", "c11maskrun"):
             out.sample({"request": req[:100] + "…", "model": rep[:80]}, limit=3)
     out.notes.append(f"get_mask: {exact[1]} of {exact[0]} values bit-identical between numpy and the compiled model")
+    out.notes.append(f"mask life: {agree[1]} of {agree[0]} replies of real station objects agree with the state machine")
     return out
 
 
